@@ -2324,6 +2324,29 @@ def desugar_adaptors(prog, fn, results=False, _depth=0):
                 blocks[bi] = nb
                 done.append("%s@bb%d" % (t["decl"].rsplit("::", 1)[-1], bi))
             continue
+        if not blocks[bi].get("cleanup") and t["k"] == "call" and t.get("decl") == "core::option::Option::<T>::filter" \
+                and t.get("target") is not None and not t["dest"]["p"] and len(t.get("args", [])) == 2:
+            #   o.filter(p)  ==  match o { Some(x) => if p(&x) { Some(x) } else { None }, None => None }
+            ca = callable_of(t["args"][1])
+            o_ = t["args"][0].get("move") or t["args"][0].get("copy")
+            if ca is not None and o_ is not None:
+                at = t.get("at")
+                dest = t["dest"]["l"]
+                dd, x_, rx, r_ = new_local("isize"), new_local(), new_local("&?"), new_local("bool")
+                unreach = new_block([], {"k": "unreachable", "at": at})
+                none = new_block([assign(dest, opt_none(), at)], {"k": "goto", "target": t["target"], "at": at})
+                keep = new_block([assign(dest, opt_some({"move": {"l": x_, "p": []}}), at)], {"k": "goto", "target": t["target"], "at": at})
+                sw2 = new_block([], {"k": "switch", "discr": {"move": {"l": r_, "p": []}}, "discr_ty": "bool", "arms": [{"value": 0, "target": none}], "otherwise": keep, "at": at})
+                call_entry = emit_call(ca, [rx], r_, sw2, at)
+                some = new_block([assign(x_, {"k": "use", "a": {"copy": {"l": o_["l"], "p": list(o_["p"]) + [{"as": "Some"}, {"f": "0", "adt": "core::option::Option"}]}}}, at),
+                                  assign(rx, {"k": "ref", "mut": False, "place": {"l": x_, "p": []}}, at)], {"k": "goto", "target": call_entry, "at": at})
+                sw = new_block([assign(dd, {"k": "discr", "place": o_, "ty": "core::option::Option<?>", "adt": "core::option::Option", "variants": {"0": "None", "1": "Some"}}, at)],
+                               {"k": "switch", "discr": {"move": {"l": dd, "p": []}}, "discr_ty": "isize", "arms": [{"value": 0, "target": none}, {"value": 1, "target": some}], "otherwise": unreach, "at": at})
+                nb = dict(blocks[bi])
+                nb["term"] = {"k": "goto", "target": sw, "at": at}
+                blocks[bi] = nb
+                done.append("filter@bb%d" % bi)
+            continue
         if not blocks[bi].get("cleanup") and t["k"] == "call" and t.get("decl") == "core::option::Option::<T>::map_or" \
                 and t.get("target") is not None and not t["dest"]["p"] and len(t.get("args", [])) == 3:
             #   o.map_or(d, f)  ==  match o { Some(x) => f(x), None => d }     (d is a value already computed)
